@@ -667,6 +667,34 @@ def solveRaise (E : Env ω ρ ξ α) (c : Callback ω) (pr : ω → ω) (pt : ω
 
 end
 
+/-! ## an `insert` that raises (display with `period = 0`) -/
+
+section
+variable {ω ρ ξ α L : Type} [DecidableEq L]
+
+/-- the first pass up to the exception: `for self.itnum in …`, `self.step()`, NaN test, record
+    appended — then `insert` raises, nothing else runs (the timer keeps running) -/
+def bodyInsertRaise (E : Env ω ρ ξ α) (d : Drv ω ρ L) (i : Int) : Drv ω ρ L × Outcome :=
+  let d := { d with itnum := i }
+  let d := { d with world := E.step d.world, clock := d.clock + E.stepTicks d.world }
+  if d.nanstop && !(workingVarsFinite E.fin (E.vars d.world)) then (d, .nan)
+  else
+    let row : Row ρ := ⟨d.itnum, d.timer.elapsedDefault true d.clock, E.fields d.world⟩
+    ({ d with rows := statsInsert d.rows row }, .ok)
+
+/-- `solve()` on an optimiser whose statistics object raises at every `insert` (`insertRaises`):
+    `none` = the `ZeroDivisionError` leaves `solve` in the first iteration; `some o` = nothing was
+    inserted (`maxiter ≤ 0`: ordinary `solve`) or the NaN stop came first -/
+def solveInsertRaise (E : Env ω ρ ξ α) (cb : Option (Callback ω)) (d : Drv ω ρ L) : Drv ω ρ L × Option Outcome :=
+  let d0 := d.timerStart
+  if d0.maxiter.toNat = 0 then ((solve E cb d).1, some (solve E cb d).2)
+  else
+    match bodyInsertRaise E d0 d0.itnum with
+    | (d1, .ok) => (d1, none)
+    | (d1, o) => (d1, some o)
+
+end
+
 /-! ## `scico.util.ContextTimer` -/
 
 /-- `ContextTimer.action` -/
@@ -788,6 +816,15 @@ def dispEnd (o : DisplayOpts) (s : Disp) : Disp :=
 def dispInserts (o : DisplayOpts) : Nat → Disp → Disp
   | 0, s => s
   | k + 1, s => dispInserts o k (dispInsert o s)
+
+/-- `insert` raises `ZeroDivisionError` iff it reaches `… % self.period` with `period = 0`, i.e. iff
+    the object displays (`IterationStats.__init__` accepts `period = 0`) -/
+def insertRaises (o : DisplayOpts) : Bool := o.display && o.period == 0
+
+/-- printing part of an `insert` that raises: the record is already appended and the pending header
+    already printed when the modulo is evaluated -/
+def dispInsertRaise (s : Disp) : Disp :=
+  ⟨s.len + 1, false, if s.hdrPending then s.out ++ [.header] else s.out⟩
 
 /-- several `solve()` calls: `k` insertions followed by `end()`, for each `k` of the list -/
 def dispCalls (o : DisplayOpts) : List Nat → Disp → Disp
